@@ -585,6 +585,107 @@ Section WasmFacts.
     repeat split; try reflexivity.
     intros C. injection C as C. apply Hne. exact C.
   Qed.
+
+  (* ---------- configuration: the overlay around lint, and what synchronize_lint_dict does to it ---------- *)
+  Lemma aget_cfg_merge_from (b : config) : forall (a : config) k, NoDup (map fst b) ->
+    aget k (cfg_merge_from a b) = match aget k b with Some (Some v) => Some (Some v) | _ => aget k a end.
+  Proof.
+    unfold cfg_merge_from. induction b as [|[k0 v0] b IH]; intros a k ND; cbn [fold_left aget fst snd]; [reflexivity|].
+    inversion ND as [|? ? Hn ND']; subst. rewrite IH by exact ND'.
+    destruct (k =? k0)%N eqn:E.
+    - apply N.eqb_eq in E. subst k0. apply aget_None_notin in Hn. rewrite Hn.
+      destruct v0 as [v|]; [rewrite aget_ains, N.eqb_refl|]; reflexivity.
+    - destruct (aget k b) as [[v|]|]; try reflexivity; destruct v0 as [v'|]; try reflexivity; now rewrite aget_ains, E.
+  Qed.
+
+  Lemma cfg_merge_inherits (b : config) : forall (a : config) k,
+    aget k (cfg_merge_from a b) = aget k a \/ exists v, aget k (cfg_merge_from a b) = Some (Some v).
+  Proof.
+    unfold cfg_merge_from. induction b as [|[k0 v0] b IH]; intros a k; cbn [fold_left fst snd]; [now left|].
+    destruct v0 as [v|]; [|apply IH].
+    destruct (IH (ains k0 (Some v) a) k) as [H|H]; [|right; exact H].
+    rewrite aget_ains in H. destruct (k =? k0)%N; [right; exists v; exact H|left; exact H].
+  Qed.
+
+  Lemma cfg_merge_sorted (b : config) : forall a, amap_sorted a -> amap_sorted (cfg_merge_from a b).
+  Proof.
+    unfold cfg_merge_from. induction b as [|[k0 v0] b IH]; intros a S; cbn [fold_left fst snd]; [exact S|].
+    apply IH. destruct v0; [now apply ains_sorted|exact S].
+  Qed.
+
+  Lemma aget_cfg_clear (c : config) k :
+    aget k (cfg_clear c) = match aget k c with Some _ => Some None | None => None end.
+  Proof.
+    unfold cfg_clear. induction c as [|[k0 v0] c IH]; cbn [map aget fst]; [reflexivity|].
+    destruct (k =? k0)%N; [reflexivity|exact IH].
+  Qed.
+
+  Lemma cfg_clear_sorted (c : config) : amap_sorted c -> amap_sorted (cfg_clear c).
+  Proof. unfold amap_sorted, cfg_clear. rewrite map_map. intros S. exact S. Qed.
+
+  (* the configuration the rules see during lint: the user's explicit choices over the curated defaults;
+     null / absent entries fall back to the default *)
+  Theorem config_overlay (c : config) k : amap_sorted c ->
+    aget k (cfg_fill_with_curated curated c)
+    = match aget k c with Some (Some v) => Some (Some v) | _ => aget k curated end.
+  Proof. intros S. unfold cfg_fill_with_curated. apply aget_cfg_merge_from. now apply sorted_nodup. Qed.
+
+  (* invariant of every configuration reachable from Linter::new: sorted, an unset entry is a curated
+     rule, every curated rule has an entry *)
+  Definition cfg_ok (c : config) : Prop :=
+    amap_sorted c /\
+    forall k, match aget k c with
+              | Some None => aget k curated <> None
+              | Some (Some _) => True
+              | None => aget k curated = None
+              end.
+
+  Lemma cfg_ok_new : amap_sorted curated -> cfg_ok (cfg_clear curated).
+  Proof.
+    intros S. split; [now apply cfg_clear_sorted|]. intros k. rewrite aget_cfg_clear.
+    destruct (aget k curated); [discriminate|reflexivity].
+  Qed.
+
+  Lemma cfg_ok_merge c x : cfg_ok c -> cfg_ok (cfg_merge_from c x).
+  Proof.
+    intros [S K]. split; [now apply cfg_merge_sorted|]. intros k. specialize (K k).
+    destruct (cfg_merge_inherits x c k) as [H|[v H]]; rewrite H; [exact K|exact I].
+  Qed.
+
+  (* synchronize_lint_dict gives back the configuration it found *)
+  Theorem sync_keeps_config c : amap_sorted curated -> cfg_ok c -> cfg_merge_from (cfg_clear curated) c = c.
+  Proof.
+    intros SC [S K]. apply amap_ext; [apply cfg_merge_sorted; now apply cfg_clear_sorted|exact S|].
+    intros k. rewrite aget_cfg_merge_from by (now apply sorted_nodup). specialize (K k).
+    rewrite aget_cfg_clear. destruct (aget k c) as [[v|]|]; [reflexivity| |].
+    - destruct (aget k curated); [reflexivity|congruence].
+    - now rewrite K.
+  Qed.
+
+  Lemma step_cfg_ok st c : amap_sorted curated -> cfg_ok (s_cfg st) -> cfg_ok (s_cfg (fst (step st c))).
+  Proof.
+    intros SC H. destruct c; cbn [Wasm.step fst]; try exact H.
+    - destruct (ignored_from_json json); exact H.
+    - unfold import_words. destruct (_ <? _); cbn [synchronize s_cfg]; [|exact H].
+      now rewrite sync_keeps_config.
+    - destruct c as [c|]; cbn [fst set_cfg s_cfg]; [now apply cfg_ok_merge|exact H].
+  Qed.
+
+  Theorem run_cfg_ok cs : forall st, amap_sorted curated -> cfg_ok (s_cfg st) -> cfg_ok (s_cfg (fst (run st cs))).
+  Proof.
+    induction cs as [|c cs IH]; intros st SC H; cbn [Wasm.run]; [exact H|].
+    pose proof (step_cfg_ok st c SC H) as H1. destruct (step st c) as [st1 o]. cbn [fst] in H1.
+    specialize (IH st1 SC H1). destruct (run st1 cs) as [st2 os]. exact IH.
+  Qed.
+
+  (* in every history that starts with Linter::new, importing words never changes the configuration *)
+  Theorem import_words_keeps_config dia cs ws : amap_sorted curated ->
+    let st := fst (run (new curated dia) cs) in
+    s_cfg (import_words curated word_id st ws) = s_cfg st.
+  Proof.
+    intros SC st. assert (cfg_ok (s_cfg st)) as H by (apply run_cfg_ok; [exact SC|now apply cfg_ok_new]).
+    unfold import_words. destruct (_ <? _); cbn [synchronize s_cfg]; [now apply sync_keeps_config|reflexivity].
+  Qed.
 End WasmFacts.
 
 (* ---------- a toy instance of the Section variables, for witnesses and non-vacuity examples:
